@@ -1,0 +1,115 @@
+//! Verification hooks. Only compiled with `--cfg tyberiusprime_pypipegraph2_verif`.
+//!
+//! Nothing in here changes the behaviour of the engine: a strategy that can be
+//! built outside the crate, a read-only snapshot type, a thread-local log of
+//! state transitions and the maximum signal processing depth.
+use crate::engine;
+pub use crate::engine::JobOutputResult;
+use crate::{JobKind, PPGEvaluatorStrategy};
+use std::cell::{Cell, RefCell};
+
+/// A strategy assembled from three closures (the trait itself mentions types
+/// of the private engine module, so it can not be implemented elsewhere).
+#[allow(clippy::type_complexity)]
+pub struct VerifStrategy {
+    pub present: Box<dyn Fn(&str) -> bool>,
+    pub altered: Box<dyn Fn(&str, &str, &str, &str) -> bool>,
+    /// (job id, sorted ids of its current upstreams) -> input name list
+    pub input_list: Box<dyn Fn(&str, &[&str]) -> String>,
+}
+
+impl PPGEvaluatorStrategy for VerifStrategy {
+    fn output_already_present(&self, query: &str) -> bool {
+        (self.present)(query)
+    }
+    fn is_history_altered(&self, up: &str, down: &str, last: &str, current: &str) -> bool {
+        (self.altered)(up, down, last, current)
+    }
+    fn get_input_list(
+        &self,
+        node_idx: engine::NodeIndex,
+        dag: &engine::GraphType,
+        jobs: &[engine::NodeInfo],
+    ) -> String {
+        let mut ups: Vec<&str> = dag
+            .neighbors_directed(node_idx, petgraph::Direction::Incoming)
+            .map(|u| jobs[u].get_job_id())
+            .collect();
+        ups.sort();
+        (self.input_list)(jobs[node_idx].get_job_id(), &ups)
+    }
+}
+
+/// One assignment of a job state, as seen by the engine's own predicates.
+#[derive(Clone, Debug)]
+pub struct Transition {
+    pub job_id: String,
+    pub from: String,
+    pub to: String,
+    pub from_kind: JobKind,
+    pub to_kind: JobKind,
+    pub from_finished: bool,
+    pub to_finished: bool,
+    pub from_failed: bool,
+    pub to_failed: bool,
+}
+
+#[derive(Clone, Debug)]
+pub struct JobSnap {
+    pub job_id: String,
+    pub kind: JobKind,
+    /// Debug rendering of the state, for witnesses only.
+    pub state: String,
+    pub finished: bool,
+    /// failed, upstream failed or aborted
+    pub failed: bool,
+    pub upstream_failed: bool,
+    pub history_output: Option<String>,
+}
+
+#[derive(Clone, Debug)]
+pub struct EdgeSnap {
+    pub up: String,
+    pub down: String,
+    pub required: String,
+    pub invalidated: String,
+}
+
+#[derive(Clone, Debug)]
+pub struct Snapshot {
+    pub jobs: Vec<JobSnap>,
+    pub edges: Vec<EdgeSnap>,
+    pub ready: Vec<String>,
+    pub cleanup: Vec<String>,
+    pub pending_signals: usize,
+    pub started: &'static str,
+}
+
+thread_local! {
+    static LOG: RefCell<Vec<Transition>> = const { RefCell::new(Vec::new()) };
+    static LOG_ON: Cell<bool> = const { Cell::new(true) };
+    static MAX_DEPTH: Cell<u32> = const { Cell::new(0) };
+}
+
+pub fn log_transition(t: Transition) {
+    if LOG_ON.with(|x| x.get()) {
+        LOG.with(|l| l.borrow_mut().push(t));
+    }
+}
+pub fn take_transitions() -> Vec<Transition> {
+    LOG.with(|l| std::mem::take(&mut *l.borrow_mut()))
+}
+/// Switch the transition log off (large graphs) or on.
+pub fn set_transition_log(on: bool) {
+    LOG_ON.with(|x| x.set(on));
+}
+pub fn note_depth(d: u32) {
+    MAX_DEPTH.with(|m| {
+        if d > m.get() {
+            m.set(d)
+        }
+    });
+}
+pub fn take_max_depth() -> u32 {
+    MAX_DEPTH.with(|m| m.replace(0))
+}
